@@ -340,6 +340,7 @@ impl<'a> FamVisitor for RVisit<'a> {
             1 => largest_ok,
             2 => largest_ok.saturating_sub(1),
             3 => 16,
+            4 => 32 << 20,
             _ => 512 * 1024,
         };
         let knob_at = if s.r_max_len_mode == 0 { 0 } else { s.r_knob_at as usize };
@@ -658,7 +659,8 @@ impl Scenario for C14 {
                 out.push(C14 { w_sink: l, ..self.clone() });
             }
         }
-        for (i, it) in self.items.iter().enumerate() {
+        // per-item shrinking clones the whole scenario per candidate: only once the list is short
+        for (i, it) in self.items.iter().enumerate().take(if self.items.len() <= 64 { usize::MAX } else { 0 }) {
             let mut push = |k: WKind| {
                 let mut v = self.items.clone();
                 v[i] = k;
@@ -906,6 +908,14 @@ impl Property for P14 {
             out.push(C14 { w_sink: lane.clone(), ..base(Ty::Bytes, vec![small.clone(), over.clone(), small.clone()]) });
             out.push(C14 { r_src: lane, ..base(Ty::Bytes, vec![small.clone(), WKind::Raw { declared: DEFAULT_MAX_LEN as u32 + 1, body: vec![0x40; 64] }]) });
         }
+        // (j) a frame of more than 16 MiB: the only case in which the most significant byte of the length prefix is not zero
+        let huge = WKind::Val(bytes_spec_with_encoding_len((16 << 20) + 11));
+        for g in [u32::MAX, 5 << 20] {
+            let lane = if g == u32::MAX { vec![] } else { vec![Step::Xfer(g); 8] };
+            out.push(C14 { w_max_len_mode: 1, r_max_len_mode: 4, r_src: lane.clone(), w_sink: lane, ..base(Ty::Bytes, vec![small.clone(), huge.clone(), small.clone()]) });
+        }
+        // (k) more than 65536 frames through one writer and one reader (16-bit counters)
+        out.push(base(Ty::U64, (0..65_700u64).map(|i| WKind::Val(ValSpec { ty: Ty::U64, size: 0, seed: i })).collect()));
         out
     }
 
